@@ -199,6 +199,7 @@ structure TrkRun where
   out : List String := []
   subs : Subs := initialSubs
   scale : Int := 1        -- time unit = 1/scale second (op `s:<k>`); the TTL is given in seconds
+  quiet : Bool := false   -- op `z:1`: the table is printed with the n_latest queries only
 
 def evOfKey (k : String) : Ev × Nat :=
   if k = "C" then (.created, 1) else if k = "U" then (.updated, 2) else (.deleted, 3)
@@ -209,7 +210,9 @@ def showCalls (subs : Subs) (evs : List (Ev × Int)) : String :=
   "~" ++ ",".intercalate ([1, 2, 3, 7].map fun cb => toString ((calls.filter (·.1 = cb)).length))
 
 def trkOp (r : TrkRun) (op : String) : TrkRun :=
-  let emit (st : TrkState) (s : String) : TrkRun := { r with st := st, out := r.out ++ [s ++ " " ++ showTrkState st] }
+  let showSt (st : TrkState) (full : Bool) : String :=
+    if r.quiet && !full then "{~" ++ toString st.tracks.length ++ "}" else showTrkState st
+  let emit (st : TrkState) (s : String) : TrkRun := { r with st := st, out := r.out ++ [s ++ " " ++ showSt st false] }
   match op.splitOn ":" with
   | ["t", n] => { r with now := parseInt n }
   | ["l", n] => { r with st := { r.st with ttl := if n = "N" then none else some (parseInt n * r.scale) } }
@@ -221,7 +224,8 @@ def trkOp (r : TrkRun) (op : String) : TrkRun :=
   | ["g", m] => emit r.st ("g" ++ (match getTrack r.st (parseInt m) with | some t => showTrack t | none => "N"))
   | ["r", k] => { r with subs := detach r.subs (evOfKey k).1 (evOfKey k).2 }
   | ["a", k] => { r with subs := attach r.subs (evOfKey k).1 (evOfKey k).2 }
-  | ["n", k] => emit r.st ("n[" ++ " ".intercalate ((nLatest r.st (parseInt k)).map fun t => toString t.mmsi) ++ "]")
+  | ["z", b] => { r with quiet := b = "1" }
+  | ["n", k] => (fun (s : String) => { r with out := r.out ++ [s ++ " " ++ showSt r.st true] }) ("n[" ++ " ".intercalate ((nLatest r.st (parseInt k)).map fun t => toString t.mmsi) ++ "]")
   | ["u", line, ts] =>
     match decodeArgs nk env false [bytesOfHex line] with
     | .error e => emit r.st ("u" ++ showErr e)
